@@ -342,8 +342,10 @@ package ggql
 //@           decreases len(t.fields.list) - rangeindex
 
 //@ -- ------------------------------------------------------------------ possible types, unions, enums, the schema element
-//@ -- typeList.add re-sorts the list with sort.Slice and a closure (outside the verifier's subset): its contract is
-//@ -- trusted and only states the list as a set
+//@ -- typeList.add re-sorts the list with sort.Slice and a closure: its contract is trusted and only states the list as a
+//@ -- set. (With sort.Slice modelled as a permutation in place the body does prove these clauses - tried in the fourth session -
+//@ -- but the truthful frame then includes the contents of the list's array, and the callers' invariants about array
+//@ -- ownership were not finished; the attempt is described in DESIGN.md 11.8.)
 //@ func (*typeList).add
 //@   abstract sort.Slice with a comparison closure; the list is kept sorted by rank and name, only set membership is stated
 //@   requires tl != nil
